@@ -5,21 +5,24 @@ import json, os, re, shutil, sys
 ROOT = os.path.dirname(os.path.dirname(os.path.abspath(__file__)))
 SRC = sys.argv[1] if len(sys.argv) > 1 else '/tmp/seed/out'
 OFFSET = int(sys.argv[2]) if len(sys.argv) > 2 else 0
+DEST = sys.argv[3] if len(sys.argv) > 3 else 'seeded'
 for pid in sorted(os.listdir(SRC)):
     for k0 in sorted(os.listdir(os.path.join(SRC, pid))):
         d = os.path.join(SRC, pid, k0)
         k = str(int(k0) + OFFSET) if k0.isdigit() else k0
-        if not all(os.path.isfile(os.path.join(d, f)) for f in ('patch.diff', 'demo.py', 'notes.json')):
+        if not all(os.path.isfile(os.path.join(d, f)) for f in (('patch.diff', 'demo.py', 'notes.json') if DEST == 'seeded' else ('patch.diff', 'notes.json'))):
             continue
         notes = json.load(open(os.path.join(d, 'notes.json')))
         slug = re.sub(r'[^a-z0-9]+', '-', notes['summary'].lower())[:40].strip('-')
-        existing = [n for n in os.listdir(os.path.join(ROOT, 'seeded')) if n.startswith(f'{pid}-{k}-')] if os.path.isdir(os.path.join(ROOT, 'seeded')) else []
+        existing = [n for n in os.listdir(os.path.join(ROOT, DEST)) if n.startswith(f'{pid}-{k}-')] if os.path.isdir(os.path.join(ROOT, DEST)) else []
         name = existing[0] if existing else f'{pid}-{k}-{slug}'
-        out = os.path.join(ROOT, 'seeded', name)
+        out = os.path.join(ROOT, DEST, name)
         os.makedirs(out, exist_ok=True)
         shutil.copy(os.path.join(d, 'patch.diff'), out)
-        shutil.copy(os.path.join(d, 'demo.py'), out)
+        if os.path.isfile(os.path.join(d, 'demo.py')):
+            shutil.copy(os.path.join(d, 'demo.py'), out)
         meta = {'property': pid, 'summary': notes.get('summary', ''), 'needs': notes.get('needs', ''), 'files': notes.get('files', []),
+                'why_property_still_holds': notes.get('why_property_still_holds', ''),
                 'origin': 'independent sub-agent given only the property text and a scratch worktree of /repo',
                 'ran': 'tools/seeded_audit.py --confirm: in a scratch worktree of /repo HEAD - demo.py on the clean tree (must exit 0), '
                        'git apply patch.diff, demo.py (must exit non-zero), repository suite (must pass), then bin/check <property> '
